@@ -112,36 +112,10 @@ class AliasDeref:
         return self.ef._alias_facts(fn, node)
 
     # ------------------------------------------------------------------ interprocedural discharge through private helpers
-    def _ref_index(self) -> dict[str, list[ast.AST]]:
-        idx = self.__dict__.get("_refs")
-        if idx is None:
-            idx = self.__dict__["_refs"] = {}
-            for mod in self.prog.modules.values():
-                for n in ast.walk(mod.tree):
-                    if isinstance(n, ast.Name) and isinstance(n.ctx, ast.Load) and n.id.startswith("_"):
-                        idx.setdefault(n.id, []).append(n)
-                    elif isinstance(n, ast.Attribute) and n.attr.startswith("_"):
-                        idx.setdefault(n.attr, []).append(n)
-        return idx
-
     def call_sites(self, f: FunctionInfo) -> list[tuple[FunctionInfo, ast.Call]] | None:
-        """Every call site of a private helper (by name, over the whole program: a superset), or None when callers cannot all be seen."""
-        from sa.srcmodel import parent
+        from sa.util import private_call_sites
 
-        if not f.name.startswith("_") or (f.name.startswith("__") and f.name.endswith("__")) or f.is_property or f.is_setter or f.outer is not None:
-            return None
-        if any(d.split(".")[-1] not in ("staticmethod", "classmethod", "cache", "lru_cache") for d in f.decorators):
-            return None
-        out: list[tuple[FunctionInfo, ast.Call]] = []
-        for n in self._ref_index().get(f.name, []):
-            par = parent(n)
-            if not (isinstance(par, ast.Call) and par.func is n):
-                return None  # used as a value (stored, passed, compared): callers unknown
-            g = self.prog.fn_containing(n)
-            if g is None:
-                return None  # called while a module or class body runs
-            out.append((g, par))
-        return out or None
+        return private_call_sites(self.prog, f)
 
     @staticmethod
     def _bind(f: FunctionInfo, call: ast.Call) -> dict[str, ast.AST] | None:
